@@ -39,6 +39,10 @@ def run(res, programs, tier):
         _r03_3(res, P, P.name)
         _r03_4(res, P, P.name)
         _r03_5(res, P, P.name)
+        if "dashu_ratio" in P.units and P.role == "main":
+            # R03.6 (= R10.4): the half test of round_fract is conservative
+            from . import polarity
+            polarity.rule(res, P, P.name, "R03.6")
 
 
 def _closure_negates_arg(P, cl):
